@@ -279,7 +279,7 @@ def _to_value_flags(sess: ast.ClassDef) -> t.Tuple[bool, bool]:
 # ------------------------------------------------------------------------------------------------
 
 
-def _functions_lit(repo: str) -> t.Tuple[bool, bool]:
+def _functions_lit(repo: str) -> t.Tuple[bool, bool, t.Optional[str]]:
     ob = OB + ".lit"
     mod = parse(repo, "sqlframe/base/functions.py")
     fn = find_func(mod.body, "lit")
@@ -288,10 +288,29 @@ def _functions_lit(repo: str) -> t.Tuple[bool, bool]:
         raise Untranslatable(ob, "lit no longer falls through to Column(value)")
     str_lit = False
     inf_str = False
+    nan_ty: t.Optional[str] = None  # a NaN case inside lit() itself (top-level values only)
     for test, body in chain:
         tsrc = ast.unparse(test)
         bsrc = ast.unparse(body[0]) if len(body) == 1 else None
-        if tsrc == "isinstance(value, str)":
+        if tsrc == "isinstance(value, float)":
+            # nested tests on the float: math.isnan -> CAST('NaN' AS ty), math.isinf -> string literal
+            sub, rest2 = _if_chain(body, ob)
+            if rest2:
+                raise Untranslatable(ob, "unsupported float branch of lit")
+            for t2, b2 in sub:
+                t2s = ast.unparse(t2)
+                b2s = ast.unparse(b2[0]) if len(b2) == 1 else ""
+                if t2s == "math.isnan(value)":
+                    if not b2s.startswith("return Column(expression.cast(expression.Literal.string('NaN'), expression.DataType.build("):
+                        raise Untranslatable(ob, f"unsupported NaN branch of lit {b2s!r}")
+                    nan_ty = _str_consts(b2[0])[-1]
+                elif t2s == "math.isinf(value)":
+                    if b2s != "return Column(expression.Literal.string(str(value)))":
+                        raise Untranslatable(ob, f"unsupported infinity branch of lit {b2s!r}")
+                    inf_str = True
+                else:
+                    raise Untranslatable(ob, f"unsupported float test of lit {t2s!r}")
+        elif tsrc == "isinstance(value, str)":
             if bsrc != "return Column(expression.Literal.string(value))":
                 raise Untranslatable(ob, f"unsupported str branch {bsrc!r}")
             str_lit = True
@@ -306,7 +325,7 @@ def _functions_lit(repo: str) -> t.Tuple[bool, bool]:
             raise Untranslatable(ob, f"unsupported branch {tsrc!r}")
     if not str_lit:
         raise Untranslatable(ob, "lit(str) is no longer a string literal (a bare str would be parsed as a column name)")
-    return str_lit, inf_str
+    return str_lit, inf_str, nan_ty
 
 
 def _column_lit(repo: str) -> t.List[t.Tuple[t.List[str], str, str]]:
@@ -468,7 +487,7 @@ def gen_values(repo: str) -> str:
     by_key = _dict_rows(cdf)
     _cells_through_lit(cdf)
     tz, dec = _to_value_flags(sess)
-    str_lit, inf_str = _functions_lit(repo)
+    str_lit, inf_str, lit_nan_ty = _functions_lit(repo)
     lchain = _column_lit(repo)
     si = _schema_input(repo)
 
@@ -494,6 +513,8 @@ def gen_values(repo: str) -> str:
     L.append("")
     L.append(f"def litStrIsStringLiteral : Bool := {str(str_lit).lower()}")
     L.append(f"def litInfIsString : Bool := {str(inf_str).lower()}")
+    L.append("/-- a NaN case inside `functions.lit` itself (reached by top-level values only): the CAST type -/")
+    L.append("def litNanCast : Option String := " + ("none" if lit_nan_ty is None else f"some {lean_str(lit_nan_ty)}"))
     L.append("inductive LitCond | always | isNan deriving DecidableEq, Repr")
     L.append("inductive LitKind | struct | array | tuple | varmap | nanCast (ty : String) | tsCast (naive aware : String) | convert")
     L.append("  deriving DecidableEq, Repr")
